@@ -1,10 +1,12 @@
 """C11 - statuses are invariant under presentation and local to components (renaming and mapping clauses)"""
-from . import grounded, invariance, provenance, readers, accept
+from . import grounded, invariance, provenance, readers, accept, components
 
 
 def run(ctx):
     invariance.rule_parametricity(ctx)
     invariance.rule_component_extraction(ctx)
+    invariance.rule_component_traversal(ctx)
+    components.rule_component_cursor(ctx)
     provenance.rule_argument_provenance(ctx)
     provenance.rule_literal_provenance(ctx)
     invariance.rule_attack_multiplicity(ctx)
